@@ -16,7 +16,9 @@ TRUSTED = c09.TRUSTED + ['struct.unpack record reads of Read.py are word moves']
 ASSUMPTIONS = ['a reader that raises does not "accept" the file (statement quantifies over files both accept)']
 LEVEL_TEXT = ('Theorems (Props/C13.v): the record reader\'s seek arithmetic, translated from uamiv/Read.py and timetuple.py (tie T), equals the byte '
               'offset of the record in the specification layout for all grids/species/layers/steps (C13_recordposition_is_spec_offset); the Memmap '
-              'reader model presents exactly the encoded content (C13_memmap_presents_content); the translated timerange generator terminates with '
+              'reader model presents exactly the encoded content (C13_memmap_presents_content); BOTH READERS AGREE ON THE DATA of every well-formed file: the cells found at the '
+              'translated seek position of (step, species, layer) are the cells the Memmap model presents (C13_readers_agree_on_data, '
+              'C13_record_at_seek_position); the translated timerange generator terminates with '
               'the orbit whenever the end time is reached and provably never terminates when the end date is below the start date '
               '(C13_timerange_terminates, C13_timerange_diverges_refuted). Tie H: both library readers on the same reference-encoded files, '
               'views compared; captured seeks == translated arithmetic.')
